@@ -24,12 +24,19 @@ auto gemv_n(Context ctxt, typename MIt::element a, MIt m_first, Size count, XIt 
 	assert( x_first.base() != y_first.base() );
 	assert( y_first.stride() != 0 );  // BLAS generally doesn't support stride zero
 
+	// BLAS requires lda >= max(1, rows) even when the matrix has at most one (BLAS) column, in which case lda addresses nothing;
+	// such a matrix (e.g. an Mx1 array, whose two strides are both 1) may carry any stride in that direction
+	auto const legal_ld = [](auto ld, auto rows, auto cols) {
+		using ld_type = decltype(ld);
+		return (cols <= 1 && ld < static_cast<ld_type>(rows)) ? static_cast<ld_type>(rows) : ld;
+	};
+
 	if constexpr(! is_conjugated<MIt>::value) {
-		if     (m_first .stride()==1)   {ctxt->gemv('N', count, (*m_first).size(), &a, m_first.base()            , (*m_first).stride(), x_first.base(), x_first.stride(), &b, y_first.base(), y_first.stride());}
-		else if((*m_first).stride()==1) {ctxt->gemv('T', (*m_first).size(), count, &a, m_first.base()            ,   m_first .stride(), x_first.base(), x_first.stride(), &b, y_first.base(), y_first.stride());}
+		if     (m_first .stride()==1)   {ctxt->gemv('N', count, (*m_first).size(), &a, m_first.base()            , legal_ld((*m_first).stride(), count, (*m_first).size()), x_first.base(), x_first.stride(), &b, y_first.base(), y_first.stride());}
+		else if((*m_first).stride()==1) {ctxt->gemv('T', (*m_first).size(), count, &a, m_first.base()            , legal_ld(  m_first .stride(), (*m_first).size(), count), x_first.base(), x_first.stride(), &b, y_first.base(), y_first.stride());}
 		else                           {assert(0); /*throw gemv_stride_error{"not BLAS-implemented"};*/}  // LCOV_EXCL_LINE
 	} else {
-		if     ((*m_first).stride()==1) {ctxt->gemv('C', (*m_first).size(), count, &a, underlying(m_first.base()), m_first. stride(), x_first.base(), x_first.stride(), &b, y_first.base(), y_first.stride());}
+		if     ((*m_first).stride()==1) {ctxt->gemv('C', (*m_first).size(), count, &a, underlying(m_first.base()), legal_ld(m_first. stride(), (*m_first).size(), count), x_first.base(), x_first.stride(), &b, y_first.base(), y_first.stride());}
 		else                           {assert(0); /*throw gemv_stride_error{"not BLAS-implemented"};*/}  // LCOV_EXCL_LINE
 	}
 
